@@ -118,6 +118,12 @@ pub fn check(cx: &Cx, rep: &mut Report) {
             }
         }
     }
+    // R2 (cont.): the converse of "Ok implies a completed handler": a completed handler implies its caller is answered
+    rep.premise_n("C02.R2.completed_handler_answers_its_caller", ix.ops.iter().filter(|o| o.op == OpK::Call && matches!(o.res, Some(Res::Reply { .. }))).count() as u64);
+    for (j, s) in super::handled_call_without_reply(cx) {
+        let o = &ix.ops[j];
+        rep.fail(P, "R2", format!("handled_call_got={}", match &o.res { Some(Res::Err(e)) => e, _ => "other" }), format!("call c{}#{} (msg {}) was handled to completion (handler exit at #{s}) but the caller got {:?}", o.c, o.i, o.msg, o.res), vec![o.b, s]);
+    }
     super::submission_starvation("C02", cx, rep);
     // R4 (cont.): whoever awaits / joins an actor that has accepted a stop gets an answer without outside help: the
     // actor does not sit idle at a quiescent point with the request accepted
